@@ -203,6 +203,11 @@ def run(c, facts, tier):
             c.ob("C03.render", en, "hand-written Display fails only when the formatter fails", "Error" in derives and len(manual) == 1 and not own_err, "derives %s; hand-written Display impls: %d; functions writing to a formatter that construct an error of their own: %s" % (derives, len(manual), own_err))
             continue
         c.ob("C03.render", en, "Display is derived from #[error] templates", "Error" in derives and tmpl_ok and not manual, "derives %s; every variant has a template: %s; hand-written Display impls: %d" % (derives, tmpl_ok, len(manual)), nontrivial=False)
+    # every hand-written `fmt` of the crate (Display or Debug of the tree types): `format!`/`to_string()` panic on an error a
+    # formatting impl makes up; it may only hand on what the formatter returned
+    fmts = [f_ for f_ in facts.nontest_fns() if f_.name == "fmt" and f_.impl is not None and f_.impl.get("trait") and norm_ty(f_.impl["trait"]).split("::")[-1] in ("Display", "Debug", "LowerHex", "UpperHex", "Octal", "Binary")]
+    made_up = [f_.key for f_ in fmts if find_all(f_.body, lambda n: (n.get("k") == "call" and n["f"].get("k") == "path" and n["f"]["segs"][-1] == "Err") or (n.get("k") in ("path", "struct") and n.get("segs") and n["segs"][-1] == "Error" and len(n["segs"]) >= 2 and n["segs"][-2] == "fmt"))]
+    c.ob("C03.render", "crate", "hand-written formatting impls fail only when the formatter fails", not made_up, "%d hand-written fmt impl(s): %s; constructing an error of their own: %s" % (len(fmts), [f_.key for f_ in fmts], made_up or "none"), nontrivial=False)
     # positive control: an undischarged fixture site
     ok, form, det = D.discharge(dict(fn="fixture::f", mir="fixture::f", kind="call", what="Option::<T>::unwrap", macros=[], line=0, file="", ord=1, operands=None))
     c.control("C03.census", ok is not True, "a new unwrap in an unknown function is reported as undischarged (%s)" % form)
